@@ -93,4 +93,11 @@ example : pst13ProofBytes (⟨[10, 66], some 93⟩ : PST.Proof K) = 8 + 48 * 2 +
 example : (PST.groupQueries ([([108], ([122], [10, 20])), ([109], ([122], [10, 20])),
       ([109], ([123], [10, 20]))] : List (PST.Query K))).map (·.1) = [[122], [123]] := by decide
 
+/-- … and `batch_open` returns two proofs of two witnesses each for them -/
+example : PST.batchOpen exCK
+    [((⟨[108], [(4, []), (6, [(0, 1)])], 2, none, none⟩ : PST.LPoly K), ⟨[], 0⟩, ⟨[108], ⟨48, none⟩, none⟩),
+     (⟨[109], [(4, []), (6, [(1, 1)]), (2, [(0, 2)])], 2, none, none⟩, ⟨[], 0⟩, ⟨[109], ⟨61, none⟩, none⟩)]
+    [([108], ([122], [10, 20])), ([109], ([122], [10, 20])), ([109], ([123], [10, 20]))] [13, 17, 19]
+    = .ok ([⟨[44, 3], none⟩, ⟨[55, 39], none⟩], []) := by decide
+
 end PCV.C19
